@@ -21,7 +21,7 @@ BOUNDS = {
 OUTSIDE = "longer histories; purity/indistinguishability changes (covered for fresh objects by C06)"
 STUBS = ["as C07"]
 
-OPS = ["circuit-new", "circuit-same-U-other-herald", "circuit-edit", "param-set", "input", "brightness", "backend", "postselect", "detector-mode"]
+OPS = ["circuit-new", "circuit-same-U-other-herald", "circuit-herald-moved", "circuit-edit", "param-set", "input", "brightness", "backend", "postselect", "detector-mode"]
 
 
 class _Cfg:
@@ -32,6 +32,7 @@ class _Cfg:
         self.ctx = ctx
         self.kind = kind
         self.param = lw.Parameter(ctx.real("v0", 0, 1))
+        self.herald_mode = 2
         self.circuit = self._mk_circuit(self.param, herald_photons=0, extra=[])
         self.herald_photons = 0
         self.extra = []
@@ -49,7 +50,7 @@ class _Cfg:
         c.bs(1, reflectivity=self.ctx.m.frac(1, 2), convention="H")
         for phi_m, phi in extra:
             c.ps(phi_m, phi)
-        c.herald(herald_photons, 2)
+        c.herald(herald_photons, self.herald_mode)
         return c
 
     def fresh(self):
@@ -79,6 +80,10 @@ class _Cfg:
             obj.circuit = self.circuit
         elif op == "circuit-same-U-other-herald":
             self.herald_photons = 1 - self.herald_photons
+            self.circuit = self._mk_circuit(self.param, self.herald_photons, self.extra)
+            obj.circuit = self.circuit
+        elif op == "circuit-herald-moved":
+            self.herald_mode = 0 if self.herald_mode == 2 else 2
             self.circuit = self._mk_circuit(self.param, self.herald_photons, self.extra)
             obj.circuit = self.circuit
         elif op == "circuit-edit":
@@ -145,26 +150,37 @@ def h_history(ctx, kind, ops, read_between):
             return
         if read_between or i == len(ops) - 1:
             _compare(ctx, cfg, obj, f"after:{op}")
-    # sampling uses the current distribution
+    # sampling: the long-lived object and a fresh one, fed the same random decisions, must
+    # hand the same support/probabilities to the generator and return the same samples
     from symx import stubs
     from .c07 import _world_run
-    en = stubs.Enumerator()
-    calls = []
+    lw = ctx.lw
+    fresh = cfg.fresh()
+    errs = (ValueError, lw.emulator.EmulatorError, lw.emulator.SamplerError, ZeroDivisionError)
+    methods = [("sample_N_outputs", lambda o: o.sample_N_outputs(2, seed=1))]
+    if kind == "sampler":
+        methods.append(("sample_N_inputs", lambda o: o.sample_N_inputs(1, seed=1)))
+    for mname, call in methods:
+        en = stubs.Enumerator()
 
-    def once():
-        try:
-            (res, w) = _world_run(ctx, en, lambda: obj.sample_N_outputs(1, seed=1))
-        except (ValueError, ctx.lw.emulator.EmulatorError, ctx.lw.emulator.SamplerError, ZeroDivisionError):
-            return None
-        calls.append(w.choice_calls)
-        return True
-    en.run_all(once)
-    if calls and kind == "quick":
-        want, _ = _dist(ctx, cfg.fresh())
-        if want is not None:
-            vals, probs, size = calls[0][0]
-            for v, pv in zip(vals, probs):
-                ctx.check_eq(pv, want.get(tuple(v.s), 0), f"after:{ops[-1]}:sampling-uses-the-current-distribution")
+        def once():
+            shared = {}
+            out = []
+            for rid, o in ((1, obj), (2, fresh)):
+                try:
+                    (res, w) = _world_run(ctx, en, lambda: call(o), decisions=shared, run_id=rid)
+                    out.append((sorted((tuple(k.s), v) for k, v in res.items()), w.choice_calls))
+                except errs as e:
+                    out.append((type(e).__name__, None))
+            return out
+        for (r1, c1), (r2, c2) in en.run_all(once):
+            ctx.check(r1 == r2, f"after:{ops[-1]}:{mname}-returns-what-a-fresh-object-returns", {"long-lived": str(r1)[:80], "fresh": str(r2)[:80]})
+            if c1 and c2:
+                v1, p1, _ = c1[0]
+                v2, p2, _ = c2[0]
+                ctx.check([v.s for v in v1] == [v.s for v in v2], f"after:{ops[-1]}:{mname}-draws-from-the-current-support")
+                if len(p1) == len(p2):
+                    ctx.check_eq(list(p1), list(p2), f"after:{ops[-1]}:{mname}-draws-with-the-current-probabilities")
 
 
 def h_sample_without_read(ctx, kind, op):
